@@ -56,6 +56,15 @@ func vXMLLog(e *xml.Encoder, buf *bytes.Buffer, maxDepth int) []vXMLEvent {
 	return out
 }
 
+// vXMLTokens: what the encoder wrote so far, as a token stream for vXMLStream.
+// Natively that is the real text; symbolically container start/end tokens as written
+// and one atomic token (with the encoded value as its model) per element that was
+// handed to the reflection encoder.
+func vXMLTokens(e *xml.Encoder, buf *bytes.Buffer) []vXMLTok {
+	e.Flush()
+	return []vXMLTok{{Kind: 6, Name: buf.String()}}
+}
+
 // vXMLTok: Kind 0 start, 1 end, 2 character data, 3 comment, 4 malformed rest.
 // A start token with a Model stands for the whole element holding that value.
 // Kind 5 is a hook: when the reader gets there, Hook is called (e.g. to cancel a context).
@@ -141,6 +150,9 @@ func vXMLStream(toks []vXMLTok) io.Reader {
 		case 5:
 			enc.Flush()
 			hooks[buf.Len()] = t.Hook
+		case 6: // raw text (what an encoder wrote, see vXMLTokens)
+			enc.Flush()
+			buf.WriteString(t.Name)
 		default:
 			// malformed rest: an end tag that closes nothing
 			enc.Flush()
